@@ -634,13 +634,23 @@ func c01MergeDriver(c *Ctx, r *Rng) {
 // Content must round-trip through the extension pair; a pointer handed to clean must pass through
 // unchanged without anything being stored (D20: with an extension clean never sniffs for a pointer).
 func c08Extension(c *Ctx, prop string, r *Rng) {
-	dir := filepath.Join(c.Work, "c08-ext")
+	for round := 0; round < 3; round++ {
+		c08ExtensionKind(c, prop, NewRng(r.U64()), round)
+	}
+}
+
+func c08ExtensionKind(c *Ctx, prop string, r *Rng, round int) {
+	// the stored form may keep, shrink or grow the size: the pointer's size is the STORED size
+	kinds := [][3]string{{"same-size", "tr a-z A-Z", "tr A-Z a-z"}, {"shrinking", "gzip -c", "gzip -dc"}, {"growing", "base64 -w0", "base64 -d"}}
+	kind := kinds[round%3]
+	dir := filepath.Join(c.Work, "c08-ext-"+prop+"-"+kind[0])
 	if gitInit(dir) != nil {
 		return
 	}
-	for k, v := range map[string]string{"lfs.extension.up.clean": "tr a-z A-Z", "lfs.extension.up.smudge": "tr A-Z a-z", "lfs.extension.up.priority": "0"} {
+	for k, v := range map[string]string{"lfs.extension.up.clean": kind[1], "lfs.extension.up.smudge": kind[2], "lfs.extension.up.priority": "0"} {
 		runIn(dir, nil, "git", "config", k, v)
 	}
+	c.R.Count("extension.kind." + kind[0])
 	countObjs := func() int {
 		n := 0
 		filepath.Walk(filepath.Join(dir, ".git", "lfs", "objects"), func(p string, fi os.FileInfo, err error) error {
@@ -651,11 +661,14 @@ func c08Extension(c *Ctx, prop string, r *Rng) {
 		})
 		return n
 	}
-	n := c.N(12, 200)
+	n := c.N(6, 80)
 	for i := 0; i < n; i++ {
 		content := []byte(strings.Repeat("lower case text ", 1+r.Intn(200)))
+		if r.Chance(30) {
+			content = []byte(hx(r.Bytes(50 + r.Intn(3000)))) // hardly compressible, still lower-case text
+		}
 		ptr, code := runInStdin(dir, string(content), c.Lfs, "clean", "x.bin")
-		enc := fmt.Sprintf("%s extension len=%d", prop, len(content))
+		enc := fmt.Sprintf("%s extension kind=%s len=%d", prop, kind[0], len(content))
 		c.R.Eval(enc, true)
 		c.R.Count("extension.clean")
 		if code != 0 || !strings.Contains(ptr, "ext-0-up sha256:") {
